@@ -384,30 +384,43 @@ func progRun(c progCase, mode string, st *fw.Stats) []fw.Viol {
 		}
 	}
 	if mode == "C04" {
-		// 404 around the not-found handlers, 405 around the not-allowed handlers
-		st.Evals++
-		want := chainEvents(append(append([]int{}, m.Global...), m.NotFound...))
-		got, code, pv := request("GET", "/nope/nothing/here")
-		if pv != nil {
-			add("request:panic", fmt.Sprintf("program [%s]: 404 request panicked: %v", ps, pv))
-		} else if evString(got) != evString(want) {
-			add("order:notfound", fmt.Sprintf("program [%s]: 404 request (global %v, NotFound %v): %s", ps, m.Global, m.NotFound, diffEvents(got, want)))
-		} else if m.NotFound == nil && allNext(m.Global) && code != 404 {
-			add("order:notfound-status", fmt.Sprintf("program [%s]: default not-found handler should answer 404, got %d", ps, code))
-		}
-		for _, rt := range m.Routes {
-			if rt.Method == "GET" && !rt.Any && !strings.Contains(rt.Path, "{") {
-				st.Evals++
-				want := chainEvents(append(append([]int{}, m.Global...), m.NotAllowed...))
-				got, code, pv := request("POST", rt.Req)
-				if pv != nil {
-					add("request:panic", fmt.Sprintf("program [%s]: 405 request panicked: %v", ps, pv))
-				} else if evString(got) != evString(want) {
-					add("order:notallowed", fmt.Sprintf("program [%s]: POST %s (global %v, NotAllowed %v): %s", ps, rt.Req, m.Global, m.NotAllowed, diffEvents(got, want)))
-				} else if m.NotAllowed == nil && code != 405 {
-					add("order:notallowed-status", fmt.Sprintf("program [%s]: default not-allowed handler should answer 405, got %d", ps, code))
+		// 404 around the not-found handlers, 405 around the not-allowed handlers - issued twice with the routes in
+		// between (404, route, 404 ...), so that a chain left behind by one request cannot serve the next
+		for round := 0; round < 2; round++ {
+			if round == 1 {
+				for i, rt := range m.Routes {
+					chain := append(append([]int{}, m.Global...), rt.Chain...)
+					want := chainEvents(chain)
+					got, _, pv := request(rt.Method, rt.Req)
+					if pv == nil && evString(got) != evString(want) {
+						add("order:route-after-fallback", fmt.Sprintf("program [%s]: route #%d %s %s requested again after a 404/405 request: %s", ps, i, rt.Method, rt.Path, diffEvents(got, want)))
+					}
 				}
-				break
+			}
+			st.Evals++
+			want := chainEvents(append(append([]int{}, m.Global...), m.NotFound...))
+			got, code, pv := request("GET", "/nope/nothing/here")
+			if pv != nil {
+				add("request:panic", fmt.Sprintf("program [%s]: 404 request panicked: %v", ps, pv))
+			} else if evString(got) != evString(want) {
+				add("order:notfound", fmt.Sprintf("program [%s]: 404 request (global %v, NotFound %v): %s", ps, m.Global, m.NotFound, diffEvents(got, want)))
+			} else if m.NotFound == nil && allNext(m.Global) && code != 404 {
+				add("order:notfound-status", fmt.Sprintf("program [%s]: default not-found handler should answer 404, got %d", ps, code))
+			}
+			for _, rt := range m.Routes {
+				if rt.Method == "GET" && !rt.Any && !strings.Contains(rt.Path, "{") {
+					st.Evals++
+					want := chainEvents(append(append([]int{}, m.Global...), m.NotAllowed...))
+					got, code, pv := request("POST", rt.Req)
+					if pv != nil {
+						add("request:panic", fmt.Sprintf("program [%s]: 405 request panicked: %v", ps, pv))
+					} else if evString(got) != evString(want) {
+						add("order:notallowed", fmt.Sprintf("program [%s]: POST %s (global %v, NotAllowed %v): %s", ps, rt.Req, m.Global, m.NotAllowed, diffEvents(got, want)))
+					} else if m.NotAllowed == nil && code != 405 {
+						add("order:notallowed-status", fmt.Sprintf("program [%s]: default not-allowed handler should answer 405, got %d", ps, code))
+					}
+					break
+				}
 			}
 		}
 	}
@@ -423,7 +436,7 @@ func allNext(ids []int) bool { return true }
 
 func progVariants(mode string, depth int, inGroup bool) []refmodel.Stmt {
 	var v []refmodel.Stmt
-	prefixes := [][]string{{"/g", "x"}, {"/h", "y/"}, {"/g/h"}}
+	prefixes := [][]string{{"/g", "x"}, {"/h", "y/", "/g"}, {"/g/h"}}
 	if mode == "C04" {
 		prefixes = [][]string{{"/g", "/"}, {"/h"}, {"/g/h"}}
 		v = append(v, refmodel.Stmt{Kind: "use", K: 1}, refmodel.Stmt{Kind: "use", K: 2})
